@@ -106,12 +106,17 @@ CLAIMS = {
    ref="DESIGN.md §3 C20"),
 }
 NA = {}
+E15_PROPS = {"C07","C08","C09","C10","C11","C12","C13","C14","C15","C16","C19","C20"}
+E15_TEXT = " Also decided for the whole module as necessary conditions of this property: no comparison has the same expression on both sides; no loop that collects results from every element breaks on a per-element miss; sibling collections of one owner are indexed by the loop's own index; variables classifying the current loop element are assigned in the same iteration before they are read; the feature walkers of Any expressions give each child of a syntax node kind the same constraint (reviewed divergences excepted); no query writes memory that existed before it (ownership engine: append-alias and escaping-write rules)."
 ALL = ["C%02d" % i for i in range(1, 21)]
 def main():
     checks = []
     for pid in ALL:
         if pid not in CLAIMS: continue
-        c = CLAIMS[pid]
+        c = dict(CLAIMS[pid])
+        if pid in E15_PROPS:
+            c["text"] = c["text"] + E15_TEXT
+            c["technique"] = c["technique"] + "; module-wide loop/comparison discipline rules (E15) and ownership engine"
         checks.append({
             "property_id": pid,
             "quick_cmd": f"bin/hclverif -property {pid} -tier quick",
